@@ -1503,3 +1503,31 @@ def calibration_split_replay(n_rep=21, alpha=0.9):
     finally:
         QuantileRegressionSolver.fit = real_fit
     return out
+
+
+def repeat_bootstrap_run_replay():
+    """REAL client, bootstrap estimator with the regularisation chosen by cross validation: the same request three times in
+    ONE process (same client, same client again, fresh client) must return identical tables"""
+    base = synthetic(60, seed=1)
+    cur = feed(base, [100] * 40 + [35] * 20, seed=0)
+    out = {"exc": None, "differences": []}
+    try:
+        from elexmodel.client import ModelClient
+
+        c = ModelClient()
+        runs = []
+        for client in (c, c, None):
+            _, r = run_client(cur, base, estimands=("margin",), pi_method="bootstrap", prediction_intervals=(0.9,), aggregates=("postal_code", "unit"), features=("baseline_normalized_margin",), model_parameters={"B": 25}, client=client)
+            runs.append(r)
+        for i in (1, 2):
+            for tab in runs[0]:
+                a, b = runs[0][tab], runs[i][tab]
+                if not a.equals(b):
+                    col = [cc for cc in a.columns if not a[cc].equals(b[cc])][:1]
+                    out["differences"].append({"run": i + 1, "table": tab, "first_differing_column": col})
+        out["differences"] = out["differences"][:4]
+        out["ok"] = not out["differences"]
+    except Exception as e:  # noqa
+        out["exc"] = f"{type(e).__name__}: {e}"
+        out["ok"] = False
+    return out
